@@ -1,4 +1,5 @@
 """C01 Compiled pure-Python code behaves exactly like CPython (DESIGN.md section 5, C01)."""
+import json
 import os
 import re
 
@@ -20,6 +21,11 @@ def classify(m):
     if ecore == gcore:
         try:
             el, gl = elog[0][1], glog[0][1]
+            if (ecore[0] == 'exc' and ecore[1] == 'TypeError' and len(gl) < len(el) and el[:len(gl)] == gl
+                    and 'unhashable' in json.dumps(ecore)):
+                # CPython evaluates all keys and values of a (small) dict display and then builds the dict; compiled
+                # code inserts item by item, so an unhashable key fails before the later items are evaluated
+                return 'dict-display-item-inserted-before-later-items-are-evaluated'
             if (ecore[0] == 'exc' and ecore[1] == 'AttributeError' and len(gl) > len(el) and gl[:len(el)] == el):
                 # CPython looks the method up before it evaluates the call arguments; compiled code evaluates the
                 # arguments first, so their side effects happen although the lookup then fails (C20 finding)
@@ -55,9 +61,21 @@ def classify(m):
         except Exception:
             pass
         return 'exc-args:%s' % ecore[1]
+    def _msg(core):
+        try:
+            return eval(core[2][1][0][1]) if core[2][1] and core[2][1][0][0] == 'str' else ''
+        except Exception:
+            return ''
     if ecore[0] == 'exc':
+        if ecore[1] == 'AttributeError' and 'has no attribute' in _msg(ecore):
+            # the failing attribute lookup comes first in CPython; compiled code evaluated the arguments first, something in
+            # them raised and the program handled that (or went on differently)
+            return 'method-lookup-after-argument-evaluation'
         return 'missing-exception:%s' % ecore[1]
     if gcore[0] == 'exc':
+        if gcore[1] == 'TypeError' and _msg(gcore) == 'an integer is required' and re.search(r'\bIdx\(', m['case'].get('a', '')):
+            # an object that is an integer only through __index__ reaches a C-integer conversion ('%d' % obj, range(obj), ...)
+            return 'cint-rejects-index-only'
         return 'spurious-exception:%s' % gcore[1]
     et, gt = ecore[1][0], gcore[1][0]
     if et != gt:
